@@ -54,13 +54,7 @@ def check(ctx: Ctx, rep: Report):
     prog = ctx.prog
     tabs, dec = tables_ctx(ctx), decoders_ctx(ctx)
     # ---- count expression of _read_sensor / _read_setting
-    for famname, mname in (("ET", "_read_sensor"), ("DT", "_read_sensor"), ("ES", "_read_setting")):
-        fn = prog.cls(famname).methods.get(mname)
-        if fn is None:
-            raise AnalysisError("%s.%s not found" % (famname, mname))
-        ok, why = count_form(ctx, fn)
-        rep.check(ok, "C16.R1", "count:%s.%s" % (famname, mname), fn.loc(), "%s.%s requests ceil(size_/2) registers at the sensor's offset" % (famname, mname),
-                  bad="%s.%s: %s" % (famname, mname, why))
+    single_read_form(ctx, rep, "C16.R1")
     # ---- R1 per class used in a singly-readable table
     seen = set()
     for (famname, attr), rows in tabs.tables.items():
@@ -185,6 +179,20 @@ def r5(ctx: Ctx, rep: Report, tabs):
                       famname, b.id_, a.cls.name, a.offset, a.where(), b.cls.name, b.offset, b.where(), "first-match" if sem == "first" else "not understood", b.id_))
 
 
+def single_read_form(ctx: Ctx, rep: Report, rule: str, fams=("ET", "DT", "ES")):
+    """The functions that read one sensor / setting on its own (also the read-back of a written setting, C17 / C19)."""
+    prog = ctx.prog
+    for famname, mname in (("ET", "_read_sensor"), ("DT", "_read_sensor"), ("ES", "_read_setting")):
+        if famname not in fams:
+            continue
+        fn = prog.cls(famname).methods.get(mname)
+        if fn is None:
+            raise AnalysisError("%s.%s not found" % (famname, mname))
+        ok, why = count_form(ctx, fn)
+        rep.check(ok, rule, "count:%s.%s" % (famname, mname), fn.loc(), "%s.%s requests ceil(size_/2) registers at the sensor's offset and decodes the answer from its first byte" % (famname, mname),
+                  bad="%s.%s: %s" % (famname, mname, why))
+
+
 def count_form(ctx: Ctx, fn):
     """count = (size + size % 2) // 2 (any arithmetic equal to ceil(size/2)); request at <param>.offset; decode with read_value."""
     prog = ctx.prog
@@ -213,9 +221,30 @@ def count_form(ctx: Ctx, fn):
                 return False, "count expression %s is not a function of size_ alone (%s)" % (norm(cnt), e)
             if v != (size + 1) // 2:
                 return False, "count expression %s gives %s registers for size_=%d (needs %d)" % (norm(cnt), v, size, (size + 1) // 2)
-    dec = [n for n in ast.walk(fn.node) if isinstance(n, ast.Call) and call_chain(n) == (param, "read_value")]
-    if not dec:
+    # the answer starts at the requested register: decoded in place (read_value), or after a seek that lands on byte 0
+    # (<param>.read(response) seeks to command.get_offset(<param>.offset): 0 for the commands that count from their
+    # first address, the address itself for the others - past the end of the answer)
+    body = ast.Module(body=list(fn.node.body), type_ignores=[])
+    dec = [n for n in ast.walk(body) if isinstance(n, ast.Call) and call_chain(n) == (param, "read_value")]
+    via_seek = [n for n in ast.walk(body) if isinstance(n, ast.Call) and call_chain(n) == (param, "read")]
+    if not dec and not via_seek:
         return False, "the answer is not decoded with %s.read_value" % param
+    if via_seek:
+        from ..framing import families
+        from ..paths import enumerate_paths, no_raise
+        fams = ctx.memo("families", lambda: families(prog, ctx.res))
+        is_req = lambda n: isinstance(n, ast.Call) and any(n is r for r in reqs)
+        for p in enumerate_paths(prog, fn, no_raise):
+            calls = [ev.node for ev in p.events if ev.kind == "call"]
+            if not any(call_chain(c) == (param, "read") for c in calls):
+                continue
+            on_path = [c for c in calls if is_req(c)] or list(reqs)      # (requests built in a helper: all of them)
+            for r in on_path:
+                kinds = ["aa55"] if isinstance(r.func, ast.Name) and r.func.id == "Aa55ReadCommand" else ["rtu", "tcp"]
+                for fam in fams.values():
+                    if fam.kind in kinds and not (fam.offset_uses_first and norm(r.args[0]) == "%s.offset" % param):
+                        return False, "%s.read(response) seeks to get_offset(%s.offset), which for the %s command (%s) is %s, not the first byte of the answer to a read of exactly that register: the value is decoded from beyond the answer" % (
+                            param, param, fam.kind, norm(r.func), "%d x the address" % fam.offset_scale)
     return True, ""
 
 
